@@ -52,3 +52,19 @@ Print Assumptions C06_reset_state.
 Print Assumptions C06_chunkless_noop.
 Print Assumptions C06_full_capacity_reusable.
 Print Assumptions C06_sp_reset_ok.
+
+(* ---------- the source tie: reset's statements and the value it assigns to allocated_bytes
+   (LeafActual.v, regenerated from /repo on every run) ---------- *)
+From BV Require Import RustSem ConstsActual LeafActual LeafActualOk.
+From Coq Require Import String.
+Theorem C06_source_frames :
+  Forall (fun n => lookup n src_frames = Some true)
+    ["reset_empty_is_noop"; "reset_frees_all_but_current"; "reset_finger_to_footer"]%string.
+Proof. repeat (constructor; [vm_compute; reflexivity|]). constructor. Qed.
+
+Theorem C06_source_reset_accounting : forall m start ptr lsize ab lim, start <= ptr -> actual_footer <= lsize ->
+  call_fn src_fns (List.app (self_full start ptr lsize ab lim) (cenv m)) "reset_allocated_bytes" []
+  = RustSem.Ret (VN (lsize - actual_footer)).
+Proof. intros m start ptr lsize ab lim H1 H2. exact (proj2 (proj2 (src_getters_ok m start ptr lsize ab lim H1 H2))). Qed.
+Print Assumptions C06_source_frames.
+Print Assumptions C06_source_reset_accounting.
